@@ -26,7 +26,8 @@ func (w *W) c01Judge(st *c01State, g string, in []byte) {
 	a := ref.Analyze(in)
 	st.n++
 	// oracle self-check: the lenient recogniser must agree with encoding/json
-	if !a.Edge {
+	if !a.Edge && a.Info.MaxDepth < 9000 {
+		// (encoding/json refuses nesting deeper than 10000; RFC 8259 has no such limit)
 		if jv := json.Valid(in); jv != a.LenientOK {
 			w.OracleDisagreement("C01/recogniser-vs-encoding/json/"+q(in), fmt.Sprintf("reference says valid=%v, encoding/json.Valid says %v", a.LenientOK, jv), cs)
 			return
@@ -97,9 +98,13 @@ func runC01(w *W) {
 	judge := func(g string, in []byte) { w.c01Judge(st, g, in) }
 	th := w.thorough()
 
-	w.genTokens(5, judge)
 	if th {
-		w.genNumSpellings(7, judge)
+		w.genTokens(6, judge)
+	} else {
+		w.genTokens(5, judge)
+	}
+	if th {
+		w.genNumSpellings(8, judge)
 	} else {
 		w.genNumSpellings(6, judge)
 	}
@@ -132,6 +137,11 @@ func runC01(w *W) {
 	}
 	w.genAlign(off192, ordinals, judge)
 	w.genBoundaryPairs(judge)
+	w.genFillBlock(fillStep(w), judge)
+	w.genBufferFill(judge)
+	w.genSpaceInDense([]int{1500, 9000}, judge)
+	w.genAlignedPartial(10, 110, 3, judge)
+	w.genAlignedPartial(130, 180, 2, judge)
 	if th {
 		w.genAlignLarge([]int{64 << 10, 300 << 10, 2 << 20}, judge)
 	} else {
@@ -163,6 +173,12 @@ func runC01(w *W) {
 			}
 		}, judge)
 		w.genRandom(200000, 256, judge)
+	}
+	// the accept direction on the whole valid-document workload of C02
+	if th {
+		w.eachValidDoc(20, judge)
+	} else {
+		w.eachValidDoc(2, judge)
 	}
 	w.Count("configs", len(w.configs()))
 	if !w.hasAVX512 {
